@@ -3,8 +3,8 @@
 Spec: spec/BlockCow.tla (InitC23 / CorruptNeverDecoded / UnverifiedNeverRewritten / NothingBaked) + BlockCowTrace.tla.
 Driver: harness/cmd/blockcow flips.
 Every single-bit flip of a written 4096-byte registry block (32768) and seeded bursts of 2..32 bits, crossed with the
-backup (.cow) file states none / empty / truncated / valid / full-size-but-invalid and the operations Get, Update,
-Remove, Add, is applied to a real segment file; the real registry call is run and its result plus the raw bytes of
+backup (.cow) file states none / empty / truncated / valid / full-size-but-invalid and the operations Get (through a
+read-write and through a read-only registry), Update, Remove, Add, is applied to a real segment file; the real registry call is run and its result plus the raw bytes of
 block and backup afterwards become trace events.  BlockCowTrace decides: checksum mismatch and no valid backup =>
 error and block untouched; valid backup => its content is served / the block restored; a block that verifies =>
 served, stale backup removed.  Identical abstract traces are validated once (their multiplicity is recorded)."""
@@ -18,7 +18,7 @@ META = dict(
     technique="TLA+ model of the registry block read procedure (checksum, backup check, restore); exhaustive input enumeration (every bit flip x backup states x operations) on the real registry, outcomes trace-validated by TLC",
     level="model_checking",
     level_text="TLC checks on the model, for every combination of corrupted/intact block and backup-file state and every interleaving of one writer and one reader, that no successful call was served an unverified buffer and that an unverifiable block is never written. The real code is run on every single-bit corruption of a real block (and seeded bursts) for every backup state and every registry operation, and TLC validates each real outcome (result, value, block bytes, backup file) against the model.",
-    level_note="Corruptions are single bits and bursts <= 32 bits (always detected by CRC32); the block holds 6 handles; the quick tier runs the full bit sweep for Get/Update without backup and a seeded 1-in-16 sample for the other combinations; registry objects are opened read-write with a cold cache.",
+    level_note="Corruptions are single bits, bursts <= 32 bits (always detected by CRC32) and four targeted ones (trailer zeroed / all ones, slot zeroed, data zeroed); the block holds 6 handles; operations Get (read-write and read-only registry), Update, Remove, Add; the quick tier runs the full bit sweep for Get without backup, every 4th bit for Update without backup and a seeded 1-in-16 sample for the other combinations; the thorough tier every bit for both Gets with every backup state and every 2nd bit for the writers; cold L2 cache.",
     design_ref="C23",
 )
 
